@@ -4,6 +4,7 @@ package sim
 import (
 	"bytes"
 	"fmt"
+	"strings"
 
 	"verif/harness/lib"
 	"verif/harness/simx"
@@ -228,6 +229,54 @@ func enumC16(c *lib.Ctx, yield func(c16Case) bool) {
 	alphaFull := opAlphabet(lines)
 	alpha3 := opAlphabet(lines[:3])
 	alpha2 := opAlphabet(lines[:2])
+	// back-pressure family: a requester that leaves its responses in the port
+	// (every 4th tick only / nothing before tick 12), tight port buffers, eager
+	// issue and bursts of 4 (thorough 5) operations over {read4 A, write4 A+8,
+	// read line A, write4 B, read4 B+8}: every agent sees a full output port and
+	// has to retry its response, on every stack kind over every memory kind
+	burst := []simx.MemOp{
+		{Addr: lines[0], Size: 4},
+		{Write: true, Addr: lines[0] + 8, Size: 4},
+		{Addr: lines[0], Size: simx.LineSize},
+		{Write: true, Addr: lines[1], Size: 4},
+		{Addr: lines[1] + 8, Size: 4},
+	}
+	bpStages := [][]string{{}, {"rob"}, {"wb"}, {"wt-around"}, {"wt-evict"}, {"wt-through"}, {"wt-through", "wb"}, {"rob", "wb"}}
+	bpMems := lib.Pick(c, []string{"ideal", "banked2", "dram-DDR4"}, []string{"ideal", "banked1", "banked2", "dram-DDR4", "dram-HBM2-open"})
+	for _, st := range bpStages {
+		for _, m := range bpMems {
+			if !c.Thorough() && strings.HasPrefix(m, "dram") && len(st) > 0 && st[0] != "wb" {
+				continue // quick: DRAM only bare and under a write-back cache
+			}
+			for _, buf := range []int{1, 2} {
+				for _, slow := range []string{"every4", "hold12"} {
+					cfg := simx.ChainCfg{Stages: st, Memory: m, NumMem: 1, PortBuf: buf, Lat: 1, MSHR: 2, Eager: true, SlowDriver: slow}
+					if !enumScripts(burst, lib.Pick(c, 4, 5), func(ops []simx.MemOp) bool { return yield(c16Case{cfg, ops}) }) {
+						return
+					}
+				}
+			}
+		}
+	}
+	// geometry family: multi-bank caches with long bank latencies and wide
+	// directories (a fetch can overtake an eviction that is still crossing the
+	// bank pipeline), k = 4 over {read4@8, write4@8, read line} x 3 same-set
+	// lines (2 ways: the third line evicts)
+	var geoAlpha []simx.MemOp
+	for _, l := range lines[:3] {
+		geoAlpha = append(geoAlpha, simx.MemOp{Addr: l + 8, Size: 4}, simx.MemOp{Write: true, Addr: l + 8, Size: 4}, simx.MemOp{Addr: l, Size: simx.LineSize})
+	}
+	for _, st := range [][]string{{"wb"}, {"wt-through"}, {"wt-evict"}} {
+		for _, g := range lib.Pick(c, [][3]int{{2, 10, 1}, {2, 4, 3}, {1, 10, 3}}, [][3]int{{2, 10, 1}, {2, 4, 3}, {1, 10, 3}, {4, 6, 2}, {2, 10, 3}, {1, 4, 1}}) {
+			if !c.Thorough() && st[0] != "wb" && g != [3]int{2, 10, 1} {
+				continue
+			}
+			cfg := simx.ChainCfg{Stages: st, Memory: "ideal", NumMem: 1, PortBuf: 4, Lat: 1, MSHR: 2, Eager: true, Banks: g[0], BankLat: g[1], Width: g[2]}
+			if !enumScripts(geoAlpha, 4, func(ops []simx.MemOp) bool { return yield(c16Case{cfg, ops}) }) {
+				return
+			}
+		}
+	}
 	for _, cfg := range c16Configs(c) {
 		y := func(ops []simx.MemOp) bool { return yield(c16Case{cfg, ops}) }
 		if c.Thorough() {
@@ -313,7 +362,7 @@ func init() {
 		ID:    "C16",
 		Level: "exploration",
 		Rule: "exhaustive small-scope simulation: assemblies = {none, rob, wb, wt-around, wt-evict, wt-through, wt-*>wb, rob>wb, rob>wt-through>wb, wb>wb} x memory {ideal, banked 1/2 banks} x {1, 2 interleaved controllers} x 3 (port buffer, latency, MSHR) settings x {one-at-a-time, eager} issue, plus 5 DRAM presets x {open, close} x {none, wb}; " +
-			"caches are 2 sets x 2 ways x 64 B with all line addresses forced into one set; workloads = every sequence of k operations over {read4@0, read4@8, read line, write line, write4@0, write4@8, masked line write} x lines (quick: k=2 over 3 lines everywhere, k=3 over 3 lines on cache-bearing assemblies over one ideal memory, k=4 over 2 lines on direct-mapped single caches, k=4 on one line on the eager two-level hierarchies over one ideal memory, and a timed family: every pair of operations on one line with the second delayed by every d in 2..16+6*latency cycles plus a final re-read; thorough: k=2 over 4 lines and k=3 over 3 lines everywhere, k=4 over 2 lines on two-level hierarchies, k=5 over 2 lines on direct-mapped and k=4 over 3 lines on 2-way single caches), run on the real components and SerialEngine; " +
+			"caches are 2 sets x 2 ways x 64 B with all line addresses forced into one set; workloads = every sequence of k operations over {read4@0, read4@8, read line, write line, write4@0, write4@8, masked line write} x lines (quick: k=2 over 3 lines everywhere, k=3 over 3 lines on cache-bearing assemblies over one ideal memory, k=4 over 2 lines on direct-mapped single caches, k=4 on one line on the eager two-level hierarchies over one ideal memory, a geometry family (wb with (banks, bank latency, requests/cycle) in {(2,10,1),(2,4,3),(1,10,3)}, wt-through and wt-evict with (2,10,1) [thorough: 6 geometries on all three], k=4 over {read4@8, write4@8, read line} x 3 same-set lines), a back-pressure family (requester retrieving responses only every 4th tick / not before tick 12, port buffers 1-2, eager bursts of 4 [thorough 5] operations over 5 operations on 2 lines, 8 stack kinds x {ideal, banked2, DDR4} [thorough +banked1, HBM2-open]), and a timed family: every pair of operations on one line with the second delayed by every d in 2..16+6*latency cycles plus a final re-read; thorough: k=2 over 4 lines and k=3 over 3 lines everywhere, k=4 over 2 lines on two-level hierarchies, k=5 over 2 lines on direct-mapped and k=4 over 3 lines on 2-way single caches), run on the real components and SerialEngine; " +
 			"oracle = flat byte map (masks honoured) in script order (legal because overlapping requests are never in flight together), exactly one response of the right kind per request addressed to the requester, nothing outstanding at the end. Each (assembly, script) is a distinct case.",
 		Sharded:     true,
 		MinOutcomes: 20,
